@@ -86,6 +86,11 @@ structure Good (s : CState) : Prop where
   anc_nodup : s.qc.anc.Nodup
   anc_named : ∀ p ∈ s.qc.qmap, p.2 ∈ s.qc.anc → scratchName p.1 = true
 
+/-- every ancilla / free / marked index is at least `n` (with `n` the number of argument qubits:
+no argument qubit is ever handed out as scratch space) -/
+def ScratchGe (n : Nat) (s : CState) : Prop :=
+  (∀ a ∈ s.qc.anc, n ≤ a) ∧ (∀ a ∈ s.qc.free, n ≤ a) ∧ (∀ a ∈ s.qc.marked, n ≤ a)
+
 /-- `s'` comes from `s` by steps that keep the invariant, only add qubits, never delete a
 non-scratch name and rebind only names in `B` or reserved names -/
 structure Step (B : String → Prop) (s s' : CState) : Prop where
@@ -95,21 +100,25 @@ structure Step (B : String → Prop) (s s' : CState) : Prop where
   keys_keep : ∀ x, scratchName x = false → (dictGet? s.qc.qmap x).isSome = true →
     (dictGet? s'.qc.qmap x).isSome = true
   qmap_keep : ∀ x, ¬ B x → reservedName x = false → dictGet? s'.qc.qmap x = dictGet? s.qc.qmap x
+  ge_keep : ∀ n, n ≤ s.qc.numQubits → ScratchGe n s → ScratchGe n s'
 
 theorem Step.refl {B : String → Prop} {s : CState} (h : Good s) : Step B s s :=
-  ⟨h, Nat.le_refl _, rfl, fun _ _ h => h, fun _ _ _ => rfl⟩
+  ⟨h, Nat.le_refl _, rfl, fun _ _ h => h, fun _ _ _ => rfl, fun _ _ h => h⟩
 
 theorem Step.trans {B : String → Prop} {s s' s'' : CState} (h1 : Step B s s') (h2 : Step B s' s'') :
     Step B s s'' :=
   ⟨h2.good, Nat.le_trans h1.nq_le h2.nq_le, h2.inputs_eq.trans h1.inputs_eq,
    fun x hx h => h2.keys_keep x hx (h1.keys_keep x hx h),
-   fun x hb hr => (h2.qmap_keep x hb hr).trans (h1.qmap_keep x hb hr)⟩
+   fun x hb hr => (h2.qmap_keep x hb hr).trans (h1.qmap_keep x hb hr),
+   fun n hn h => h2.ge_keep n (Nat.le_trans hn h1.nq_le) (h1.ge_keep n hn h)⟩
 
 /-- a step that leaves `numQubits`, `qmap` and `inputs` alone -/
 theorem Step.of_same {B : String → Prop} {s s' : CState} (hg : Good s')
-    (hn : s'.qc.numQubits = s.qc.numQubits) (hq : s'.qc.qmap = s.qc.qmap) (hi : s'.inputs = s.inputs) :
+    (hn : s'.qc.numQubits = s.qc.numQubits) (hq : s'.qc.qmap = s.qc.qmap) (hi : s'.inputs = s.inputs)
+    (hge : ∀ n, ScratchGe n s → ScratchGe n s') :
     Step B s s' :=
-  ⟨hg, by rw [hn]; exact Nat.le_refl _, hi, fun x _ h => by rw [hq]; exact h, fun x _ _ => by rw [hq]⟩
+  ⟨hg, by rw [hn]; exact Nat.le_refl _, hi, fun x _ h => by rw [hq]; exact h, fun x _ _ => by rw [hq],
+   fun n _ h => hge n h⟩
 
 /-! ### dictionaries -/
 
@@ -311,6 +320,7 @@ theorem Appended.step {B : String → Prop} {cls : GClass} {wires : List Nat} {s
   have hgok : GateOK s.qc.numQubits g := by
     refine ⟨by rw [hgc]; exact hc, by rw [hgw]; exact hn, by rw [hgw]; exact hw, by rw [hgw, hgc]; exact hl⟩
   apply Step.of_same _ ha.nq ha.qmap ha.inputs
+    (fun n h => ⟨by rw [ha.anc]; exact h.1, by rw [ha.free]; exact h.2.1, by rw [ha.marked]; exact h.2.2⟩)
   refine ⟨?_, ?_, ?_, ?_, ?_, ?_, ?_, ?_, ?_⟩
   · rw [ha.nq, hgates]
     intro g' hg'
@@ -387,7 +397,7 @@ theorem Good.of_eq {s s' : CState} (hg : Good s) (hn : s'.qc.numQubits = s.qc.nu
 theorem event_ok {B : String → Prop} {e : String} {u : Unit} {s s' : CState}
     (h : (event e).run s = .ok (u, s')) (hg : Good s) : Step B s s' := by
   have := event_run h; subst this
-  exact Step.of_same (hg.of_eq rfl rfl rfl rfl rfl rfl rfl rfl) rfl rfl rfl
+  exact Step.of_same (hg.of_eq rfl rfl rfl rfl rfl rfl rfl rfl) rfl rfl rfl (fun _ h => h)
 
 theorem addQubit_run {name : String} {a : Nat} {s s' : CState} (h : (addQubit name).run s = .ok (a, s')) :
     a = s.qc.numQubits ∧ s' = { s with qc := { s.qc with qmap := dictSet s.qc.qmap name s.qc.numQubits,
@@ -404,7 +414,7 @@ theorem addQubit_ok {B : String → Prop} {name : String} {a : Nat} {s s' : CSta
       (∀ p ∈ s'.qc.qmap, p.2 = a → p.1 = name) := by
   obtain ⟨rfl, rfl⟩ := addQubit_run h
   have hle : s.qc.numQubits ≤ s.qc.numQubits + 1 := Nat.le_succ _
-  refine ⟨⟨⟨?_, ?_, ?_, ?_, ?_, ?_, ?_, ?_, ?_⟩, hle, rfl, ?_, ?_⟩, rfl, Nat.lt_succ_self _, rfl, ?_⟩
+  refine ⟨⟨⟨?_, ?_, ?_, ?_, ?_, ?_, ?_, ?_, ?_⟩, hle, rfl, ?_, ?_, fun _ _ h => h⟩, rfl, Nat.lt_succ_self _, rfl, ?_⟩
   · exact fun g hg' => (hg.gates_ok g hg').mono hle
   · exact fun g hg' => (hg.comp_ok g hg').mono hle
   · intro p hp
@@ -499,7 +509,7 @@ theorem getFreeAncilla_ok {B : String → Prop} {a : Nat} {s s' : CState}
       have := modQC_run hm; subst this
       have hg2 := hst.good
       refine ⟨⟨⟨hg2.gates_ok, hg2.comp_ok, hg2.qmap_lt, hg2.expq_lt, ?_, hg2.free_lt, hg2.marked_lt, ?_, ?_⟩,
-        hst.nq_le, hst.inputs_eq, hst.keys_keep, hst.qmap_keep⟩, hilt⟩
+        hst.nq_le, hst.inputs_eq, hst.keys_keep, hst.qmap_keep, ?_⟩, hilt⟩
       · intro x hx
         rcases mem_setIns hx with hx | rfl
         · exact hg2.anc_lt x hx
@@ -509,6 +519,12 @@ theorem getFreeAncilla_ok {B : String → Prop} {a : Nat} {s s' : CState}
         rcases mem_setIns hpa with hpa | hpa
         · exact hg2.anc_named p hp hpa
         · rw [hnm p hp hpa]; exact scratch_anc _
+      · intro n hn hS
+        have hS2 := hst.ge_keep n hn hS
+        refine ⟨fun x hx => ?_, hS2.2.1, hS2.2.2⟩
+        rcases mem_setIns hx with hx | rfl
+        · exact hS2.1 x hx
+        · rw [hi]; exact hn
     · split at h
       · simp only [run_bind_ok, run_throw_ok] at h
         obtain ⟨_, _, hf, _⟩ := h
@@ -520,7 +536,8 @@ theorem getFreeAncilla_ok {B : String → Prop} {a : Nat} {s s' : CState}
         have := modQC_run hm; subst this
         have hcf : a ∈ s0.qc.free := by simpa using hc
         refine ⟨Step.of_same ⟨hg.gates_ok, hg.comp_ok, hg.qmap_lt, hg.expq_lt, hg.anc_lt, ?_, hg.marked_lt,
-          hg.anc_nodup, hg.anc_named⟩ rfl rfl rfl, hg.free_lt a hcf⟩
+          hg.anc_nodup, hg.anc_named⟩ rfl rfl rfl
+          (fun n h => ⟨h.1, fun x hx => h.2.1 x (List.mem_of_mem_erase hx), h.2.2⟩), hg.free_lt a hcf⟩
         exact fun x hx => hg.free_lt x (List.mem_of_mem_erase hx)
 
 /-! ### marks, expression cache, map_qubit -/
@@ -531,26 +548,33 @@ theorem markAncilla_ok {B : String → Prop} {w : Nat} {u : Unit} {s s' : CState
   dsimp only at h
   obtain ⟨qc, s1, hq, h⟩ := run_bind_ok.mp h
   obtain ⟨rfl, rfl⟩ := getQC_run hq
-  have fin : ∀ {s2 s3 : CState} {u : Unit}, Step B s1 s2 →
+  have fin : ∀ {s2 s3 : CState} {u : Unit}, Step B s1 s2 → s2.qc.anc = s1.qc.anc →
       (modQC fun qc => { qc with marked := setIns qc.marked w }).run s2 = .ok (u, s3) →
       w ∈ s1.qc.anc → Step B s1 s3 := by
-    intro s2 s3 u hst hm hc
+    intro s2 s3 u hst hanc hm hc
     have hw : w < s1.qc.numQubits := hg.anc_lt w hc
     have := modQC_run hm; subst this
     have hg2 := hst.good
     refine hst.trans (Step.of_same ⟨hg2.gates_ok, hg2.comp_ok, hg2.qmap_lt, hg2.expq_lt, hg2.anc_lt,
-      hg2.free_lt, ?_, hg2.anc_nodup, hg2.anc_named⟩ rfl rfl rfl)
-    intro x hx
-    rcases mem_setIns hx with hx | rfl
-    · exact hg2.marked_lt x hx
-    · exact Nat.lt_of_lt_of_le hw hst.nq_le
+      hg2.free_lt, ?_, hg2.anc_nodup, hg2.anc_named⟩ rfl rfl rfl ?_)
+    · intro x hx
+      rcases mem_setIns hx with hx | rfl
+      · exact hg2.marked_lt x hx
+      · exact Nat.lt_of_lt_of_le hw hst.nq_le
+    · intro n hS
+      refine ⟨hS.1, hS.2.1, fun x hx => ?_⟩
+      rcases mem_setIns hx with hx | rfl
+      · exact hS.2.2 x hx
+      · exact hS.1 _ (by rw [hanc]; exact hc)
   split at h
   · next hc =>
     have hc' : w ∈ s1.qc.anc := by simpa using hc
     split at h
     · obtain ⟨u1, s2, hev, hm⟩ := run_bind_ok.mp h
-      exact fin (event_ok hev hg) hm hc'
-    · exact fin (Step.refl hg) h hc'
+      have hst := event_ok (B := B) hev hg
+      have := event_run hev; subst this
+      exact fin hst rfl hm hc'
+    · exact fin (Step.refl hg) rfl h hc'
   · obtain ⟨_, rfl⟩ := run_pure_ok.mp h; exact Step.refl hg
 
 theorem markAll_ok {B : String → Prop} : ∀ (ws : List Nat) {u : Unit} {s s' : CState},
@@ -570,7 +594,7 @@ theorem expqRemove_ok {B : String → Prop} {qs : List Nat} {u : Unit} {s s' : C
   unfold expqRemove at h
   have := run_modify_ok.mp h; subst this
   refine Step.of_same ⟨hg.gates_ok, hg.comp_ok, hg.qmap_lt, ?_, hg.anc_lt, hg.free_lt, hg.marked_lt,
-    hg.anc_nodup, hg.anc_named⟩ rfl rfl rfl
+    hg.anc_nodup, hg.anc_named⟩ rfl rfl rfl (fun _ h => h)
   exact fun p hp => hg.expq_lt p (List.mem_filter.mp hp).1
 
 theorem expqSet_ok {B : String → Prop} {e : BExp} {q : Nat} {u : Unit} {s s' : CState}
@@ -585,7 +609,7 @@ theorem expqSet_ok {B : String → Prop} {e : BExp} {q : Nat} {u : Unit} {s s' :
   refine st1.trans ?_
   split
   · refine Step.of_same ⟨hg1.gates_ok, hg1.comp_ok, hg1.qmap_lt, ?_, hg1.anc_lt, hg1.free_lt, hg1.marked_lt,
-      hg1.anc_nodup, hg1.anc_named⟩ rfl rfl rfl
+      hg1.anc_nodup, hg1.anc_named⟩ rfl rfl rfl (fun _ h => h)
     intro p hp
     simp only [List.mem_map] at hp
     obtain ⟨p0, hp0, rfl⟩ := hp
@@ -593,7 +617,7 @@ theorem expqSet_ok {B : String → Prop} {e : BExp} {q : Nat} {u : Unit} {s s' :
     · exact hq1
     · exact hg1.expq_lt p0 hp0
   · refine Step.of_same ⟨hg1.gates_ok, hg1.comp_ok, hg1.qmap_lt, ?_, hg1.anc_lt, hg1.free_lt, hg1.marked_lt,
-      hg1.anc_nodup, hg1.anc_named⟩ rfl rfl rfl
+      hg1.anc_nodup, hg1.anc_named⟩ rfl rfl rfl (fun _ h => h)
     intro p hp
     simp only [List.mem_append, List.mem_singleton] at hp
     rcases hp with hp | rfl
@@ -619,13 +643,14 @@ theorem mapQubit_finish {B : String → Prop} {name : String} {index : Nat} {s1 
     (hi : index < s1.qc.numQubits) (hb : B name)
     (hg2 : Good s2) (hn2 : s2.qc.numQubits = s1.qc.numQubits) (hin2 : s2.inputs = s1.inputs)
     (hidx : index ∈ s2.qc.anc → scratchName name = true)
-    (hkeep : ∀ x, scratchName x = false → dictGet? s2.qc.qmap x = dictGet? s1.qc.qmap x) :
+    (hkeep : ∀ x, scratchName x = false → dictGet? s2.qc.qmap x = dictGet? s1.qc.qmap x)
+    (hge2 : ∀ n, ScratchGe n s1 → ScratchGe n s2) :
     Step B s1 s' ∧ dictGet? s'.qc.qmap name = some index := by
   have := modQC_run hm; subst this
   refine ⟨?_, dictGet?_dictSet_self⟩
   have hi2 : index < s2.qc.numQubits := by rw [hn2]; exact hi
   refine ⟨⟨hg2.gates_ok, hg2.comp_ok, ?_, hg2.expq_lt, hg2.anc_lt, hg2.free_lt, hg2.marked_lt, hg2.anc_nodup, ?_⟩,
-    Nat.le_of_eq hn2.symm, hin2, ?_, ?_⟩
+    Nat.le_of_eq hn2.symm, hin2, ?_, ?_, fun n _ h => hge2 n h⟩
   · intro p hp
     rcases mem_dictSet hp with hp | rfl
     · exact hg2.qmap_lt p hp
@@ -674,15 +699,17 @@ theorem mapQubit_ok {B : String → Prop} {name : String} {index : Nat} {promote
         fun p hp => hg.qmap_lt p (List.mem_filter.mp hp).1, hg.expq_lt,
         fun a ha => hg.anc_lt a (List.mem_of_mem_erase ha), hg.free_lt, hg.marked_lt,
         hg.anc_nodup.erase _, ?_⟩ rfl rfl (fun h => absurd h hne) ?_
+        (fun n h => ⟨fun a ha => h.1 a (List.mem_of_mem_erase ha), h.2.1, h.2.2⟩)
       · exact fun p hp ha => hg.anc_named p (List.mem_filter.mp hp).1 (List.mem_of_mem_erase ha)
       · intro x hx
         exact dictGet?_filter_ne (by rintro rfl; rw [hks] at hx; cases hx)
     · refine mapQubit_finish hmatch hi hb ⟨hg.gates_ok, hg.comp_ok, hg.qmap_lt, hg.expq_lt,
         fun a ha => hg.anc_lt a (List.mem_of_mem_erase ha), hg.free_lt, hg.marked_lt,
         hg.anc_nodup.erase _, ?_⟩ rfl rfl (fun h => absurd h hne) (fun _ _ => rfl)
+        (fun n h => ⟨fun a ha => h.1 a (List.mem_of_mem_erase ha), h.2.1, h.2.2⟩)
       exact fun p hp ha => hg.anc_named p hp (List.mem_of_mem_erase ha)
   · next hc =>
-    refine mapQubit_finish h hi hb hg rfl rfl ?_ (fun _ _ => rfl)
+    refine mapQubit_finish h hi hb hg rfl rfl ?_ (fun _ _ => rfl) (fun _ h => h)
     intro hia
     apply hp
     cases promote
@@ -1334,7 +1361,8 @@ end
 
 theorem Step.mono {B B' : String → Prop} {s s' : CState} (h : Step B s s') (hb : ∀ x, B x → B' x) :
     Step B' s s' :=
-  ⟨h.good, h.nq_le, h.inputs_eq, h.keys_keep, fun x hx hr => h.qmap_keep x (fun hbx => hx (hb x hbx)) hr⟩
+  ⟨h.good, h.nq_le, h.inputs_eq, h.keys_keep, fun x hx hr => h.qmap_keep x (fun hbx => hx (hb x hbx)) hr,
+   h.ge_keep⟩
 
 theorem uncomputeLoop_ok {B : String → Prop} {marked : List Nat} :
     ∀ (gs : List AGate) (unc : List Nat) (keepRev : List AGate) {r : List Nat × List AGate} {s s' : CState},
@@ -1402,8 +1430,8 @@ theorem uncompute_ok {B : String → Prop} {r : List Nat} {s s' : CState}
     obtain ⟨rfl, rfl⟩ := run_pure_ok.mp h3
     have := modQC_run hm; subst this
     have hg2 := st1.good
-    refine st1.trans (Step.of_same ⟨hg2.gates_ok, ?_, hg2.qmap_lt, hg2.expq_lt, hg2.anc_lt, ?_, ?_,
-      hg2.anc_nodup, hg2.anc_named⟩ rfl rfl rfl)
+    refine ⟨⟨hg2.gates_ok, ?_, hg2.qmap_lt, hg2.expq_lt, hg2.anc_lt, ?_, ?_,
+      hg2.anc_nodup, hg2.anc_named⟩, st1.nq_le, st1.inputs_eq, st1.keys_keep, st1.qmap_keep, ?_⟩
     · intro g hg'
       have hg'' : g ∈ keepRev := by simpa using hg'
       rcases hsub g hg'' with h' | h'
@@ -1415,6 +1443,12 @@ theorem uncompute_ok {B : String → Prop} {r : List Nat} {s s' : CState}
       · exact Nat.lt_of_lt_of_le (hg.marked_lt x h') st1.nq_le
     · intro x hx
       exact Nat.lt_of_lt_of_le (hg.marked_lt x (List.mem_filter.mp hx).1) st1.nq_le
+    · intro n hn hS
+      have hS2 := st1.ge_keep n hn hS
+      refine ⟨hS2.1, fun x hx => ?_, fun x hx => hS.2.2 x (List.mem_filter.mp hx).1⟩
+      rcases mem_foldl_setIns hx with h' | h'
+      · exact hS2.2.1 x h'
+      · exact hS.2.2 x h'
 
 theorem mem_popBarrier {res : List AGate} {g : AGate} (h : g ∈ popBarrier res) : g ∈ res := by
   unfold popBarrier at h
@@ -1471,7 +1505,7 @@ theorem removeIdentities_ok {B : String → Prop} {u : Unit} {s s' : CState}
   obtain ⟨rfl, rfl⟩ := getQC_run hq
   have := modQC_run h1; subst this
   refine Step.of_same ⟨?_, hg.comp_ok, hg.qmap_lt, hg.expq_lt, hg.anc_lt, hg.free_lt, hg.marked_lt,
-    hg.anc_nodup, hg.anc_named⟩ rfl rfl rfl
+    hg.anc_nodup, hg.anc_named⟩ rfl rfl rfl (fun _ h => h)
   intro g hg'
   have hg'' : g ∈ removeIdentitiesList s1.qc.gates.toList := by simpa using hg'
   unfold removeIdentitiesList at hg''
@@ -1519,11 +1553,16 @@ theorem uncomputeAllLoop_ok {B : String → Prop} {keep alreadyFree : List Nat} 
         have := modQC_run hm; subst this
         have hta : g.target ∈ s1.qc.anc := by simpa using hc
         refine rest h2 (Step.of_same ⟨hg.gates_ok, hg.comp_ok, hg.qmap_lt, hg.expq_lt, hg.anc_lt, ?_,
-          hg.marked_lt, hg.anc_nodup, hg.anc_named⟩ rfl rfl rfl)
-        intro x hx
-        rcases mem_setIns hx with hx | rfl
-        · exact hg.free_lt x hx
-        · exact hg.anc_lt _ hta
+          hg.marked_lt, hg.anc_nodup, hg.anc_named⟩ rfl rfl rfl ?_)
+        · intro x hx
+          rcases mem_setIns hx with hx | rfl
+          · exact hg.free_lt x hx
+          · exact hg.anc_lt _ hta
+        · intro n hS
+          refine ⟨hS.1, fun x hx => ?_, hS.2.2⟩
+          rcases mem_setIns hx with hx | rfl
+          · exact hS.2.1 x hx
+          · exact hS.1 _ hta
       · exact rest h1 (Step.refl hg)
 
 theorem uncomputeAll_ok {B : String → Prop} {keep : List Nat} {u : Unit} {s s' : CState}
@@ -1535,7 +1574,7 @@ theorem uncomputeAll_ok {B : String → Prop} {keep : List Nat} {u : Unit} {s s'
   have st1 : Step B s1 s2 := uncomputeAllLoop_ok _ hloop hg
     (fun g hg' => hg.gates_ok g (by simpa using hg'))
   have := modQC_run hm; subst this
-  exact st1.trans (Step.of_same (st1.good.of_eq rfl rfl rfl rfl rfl rfl rfl rfl) rfl rfl rfl)
+  exact st1.trans (Step.of_same (st1.good.of_eq rfl rfl rfl rfl rfl rfl rfl rfl) rfl rfl rfl (fun _ h => h))
 
 /-! ### compile -/
 
@@ -1603,20 +1642,38 @@ theorem addInputs_ok : ∀ (ns : List String) {u : Unit} {s s' : CState},
         have := hpos hnd'.2 (fun m hm => hres m (List.mem_cons_of_mem _ hm)) j x (by simpa using hi)
         rw [this, hn1]; congr 1; omega
 
+theorem addInputs_scratch : ∀ (ns : List String) {u : Unit} {s s' : CState},
+    (addInputs ns).run s = .ok (u, s') →
+    s'.qc.anc = s.qc.anc ∧ s'.qc.free = s.qc.free ∧ s'.qc.marked = s.qc.marked
+  | [], u, s, s', h => by
+    unfold addInputs at h
+    obtain ⟨_, rfl⟩ := run_pure_ok.mp h
+    exact ⟨rfl, rfl, rfl⟩
+  | n :: ns, u, s, s', h => by
+    unfold addInputs at h
+    obtain ⟨u1, s1, hd, h1⟩ := run_bind_ok.mp h
+    obtain ⟨i0, hadd⟩ := run_discard_ok.mp hd
+    have hs1 := (addQubit_run hadd).2
+    obtain ⟨h2, h3, h4⟩ := addInputs_scratch ns h1
+    rw [hs1] at h2 h3 h4
+    exact ⟨h2, h3, h4⟩
+
 theorem good_init (cs : List Nat) (inputs : List String) :
     Good { choices := cs, inputs := inputs } :=
   ⟨by simp, by simp, by simp, by simp, by simp, by simp, by simp, by simp, by simp⟩
 
 /-- **every successful run of `compile`** ends in a state satisfying the invariant; names outside
-the definitions' left-hand sides that are not reserved keep the qubit `addInputs` gave them, and
-every non-scratch left-hand side is a key of the final `qubit_map` -/
+the definitions' left-hand sides that are not reserved keep the qubit `addInputs` gave them,
+every non-scratch left-hand side is a key of the final `qubit_map`, and no argument qubit is in
+the ancilla, free or marked set -/
 theorem compile_ok {inputs : List String} {defs : List (String × BExp)} {ret : Option (List String)}
     {unc : Bool} {cs : List Nat} {s : CState}
     (h : (compile inputs defs ret unc).run { choices := cs } = .ok ((), s)) :
     Good s ∧ inputs.length ≤ s.qc.numQubits ∧
     (∀ p ∈ defs, scratchName p.1 = false → (dictGet? s.qc.qmap p.1).isSome = true) ∧
     (inputs.Nodup → (∀ n ∈ inputs, reservedName n = false ∧ n ∉ defs.map (·.1)) →
-      ∀ (i : Nat) (x : String), inputs[i]? = some x → dictGet? s.qc.qmap x = some i) := by
+      ∀ (i : Nat) (x : String), inputs[i]? = some x → dictGet? s.qc.qmap x = some i) ∧
+    ScratchGe inputs.length s := by
   unfold compile at h
   obtain ⟨u0, s0, hmod, h1⟩ := run_bind_ok.mp h
   have := run_modify_ok.mp hmod; subst this
@@ -1641,7 +1698,14 @@ theorem compile_ok {inputs : List String} {defs : List (String × BExp)} {ret : 
       · obtain ⟨_, rfl⟩ := run_pure_ok.mp h4; exact Step.refl st3.good
   have st234 := (st2.trans st3).trans st4
   have hn1' : s1.qc.numQubits = inputs.length := by rw [hn1]; simp
-  refine ⟨st4.good, by rw [← hn1']; exact st234.nq_le, ?_, ?_⟩
+  obtain ⟨ha1, hf1, hm1⟩ := addInputs_scratch inputs hin
+  have hS1 : ScratchGe inputs.length s1 := by
+    refine ⟨?_, ?_, ?_⟩
+    · rw [ha1]; intro a ha; cases ha
+    · rw [hf1]; intro a ha; cases ha
+    · rw [hm1]; intro a ha; cases ha
+  refine ⟨st4.good, by rw [← hn1']; exact st234.nq_le, ?_, ?_,
+    st234.ge_keep _ (Nat.le_of_eq hn1'.symm) hS1⟩
   · intro p hp hs
     exact (st3.trans st4).keys_keep _ hs (hkeys p hp hs)
   · intro hnd hres i x hi
